@@ -52,6 +52,7 @@ type Config struct {
 	Trace      bool
 	Witnesses  int // number of satisfying end-of-path models to keep
 	NoSpec     bool // disable if-conversion
+	CrossCheck bool // answer every deciding query with both solvers
 }
 
 // PathInfo summarises a path that did not complete normally.
@@ -75,6 +76,7 @@ type Result struct {
 	Merged      int
 	Deciding    int
 	Disagree    int
+	Fallbacks   int
 	Steps       int64
 	SolverStats map[string]smt.Stats
 	Witnesses   []Witness
@@ -270,6 +272,7 @@ func Explore(cfg Config) *Result {
 			res.Merged += ex.Merged
 			res.Deciding += ex.DecidingQ
 			res.Disagree += ex.Disagree
+			res.Fallbacks += ex.Fallbacks
 			res.Steps += ex.steps
 			for f, n := range ex.funcs {
 				res.Functions[f] += n
@@ -361,6 +364,7 @@ func runPath(cfg *Config, fn *ssa.Function, prefix []decision, solver, second *s
 		modelOK:    true,
 		model:      map[string]uint64{},
 		wantWitness: cfg.Witnesses > 0,
+		crossCheck:  cfg.CrossCheck,
 	}
 	solver.Reset()
 	before := solver.Stats
